@@ -269,7 +269,8 @@ def check(ctx):
     n_tlc_jobs = len(mains) + len(probes)
     build_s = cargo_build(ctx, ["substream"])
     nrand, nraw = (120000, 30000) if quick else (1200000, 300000)
-    summ, crash = run_harness(ctx, ["--jobs", ctx.path("jobs.jsonl"), "--random", nrand, "--random-raw", nraw, "--seed", ctx.seed,
+    wide = ",".join(w for w, sig in (("id", SIG_D7), ("sink", SIG_D8), ("nomax", SIG_D12)) if sig not in known) or "none"
+    summ, crash = run_harness(ctx, ["--jobs", ctx.path("jobs.jsonl"), "--wide", wide, "--random", nrand, "--random-raw", nraw, "--seed", ctx.seed,
                                     "--threads", min(10, W()), "--out", ctx.path("trace.ndjson"), "--jobs-out", ctx.path("jobs_out.jsonl")])
     if crash:
         log("the harness process aborted; localised to one execution (reported as a violation, remaining executions not judged)")
